@@ -299,6 +299,15 @@ class MoleculeSampler:
                           order = int(bonding[-1]))
         molecule.nodes[source_node]['bonding'].remove(bonding)
         molecule.nodes[correspondence[target_node]]['bonding'].remove(compl_bonding)
+        # the new bond replaces hydrogen atoms on both atoms; keep the
+        # hydrogen count up to date as the resolver does, otherwise
+        # aromatic rings can no longer be kekulized when hydrogen atoms
+        # are rebuild
+        if self.all_atom:
+            for bonded_node in (source_node, correspondence[target_node]):
+                node_attrs = molecule.nodes[bonded_node]
+                if node_attrs.get('element') != 'H' and 'hcount' in node_attrs:
+                    node_attrs['hcount'] = max(0, node_attrs['hcount'] - int(bonding[-1]))
 
         # here we deal with stochastic termination of branches
         # we added a terminal fragments so we remove all other
